@@ -165,8 +165,35 @@ def counter_local(f, init_pred, eb=None):
         if len(ds) < 2 or f.partial_writes(l):
             continue
         inits, decs, other = 0, 0, 0
-        for d in ds:
+        # a definition that only copies another local (the value of an inlined closure / a `let new = ..; left = new`)
+        # stands for the definitions of that local
+        work, exprs, seen_x, origin = list(ds), [], {l}, []
+        while work:
+            d = work.pop()
             e = eb.definition(d, 0, ())
+            if e[0] == 'local' and e[1] not in seen_x and len(seen_x) < 5 and not f.partial_writes(e[1]):
+                dx = [d2 for d2 in f.defs.get(e[1], []) if not f.blocks[d2[0][0]]['cleanup']]
+                if dx:
+                    seen_x.add(e[1])
+                    work.extend(dx)
+                    continue
+            # the payload of a variant of a local that is only ever built as an aggregate (`ControlFlow::Continue(x)` /
+            # `Some(x)` carrying the next value of an accumulator): the field of the aggregates of that variant
+            if e[0] == 'proj' and e[1][0] == 'local' and len(e[2]) == 2 and e[2][0].startswith('@') and e[2][1] == '.0' and not f.partial_writes(e[1][1]):
+                vname = e[2][0][1:]
+                aggs = [eb.definition(d2, 0, ()) for d2 in f.defs.get(e[1][1], []) if not f.blocks[d2[0][0]]['cleanup']]
+                if aggs and all(a[0] == 'agg' for a in aggs):
+                    hit = [a for a in aggs if a[1].rsplit('::', 1)[-1] == vname and len(a[3]) == 1]
+                    if hit:
+                        for d2 in f.defs.get(e[1][1], []):
+                            a = eb.definition(d2, 0, ())
+                            if a in hit:
+                                exprs.append(a[3][0])
+                                origin.append(d2[0])
+                        continue
+            exprs.append(e)
+            origin.append(d[0])
+        for e in exprs:
             while e[0] == 'cast' or (e[0] == 'proj' and e[2] == ('.0',)):
                 e = e[4] if e[0] == 'cast' else e[1]
             if init_pred(e):
@@ -182,6 +209,9 @@ def counter_local(f, init_pred, eb=None):
             else:
                 other += 1
         if inits >= 1 and decs >= 1 and other == 0:
+            # where each definition of the counter is computed (through copies / accumulator payloads)
+            f.counter_defs = getattr(f, 'counter_defs', {})
+            f.counter_defs[l] = list(zip(origin, exprs))
             return l
     return None
 
@@ -273,6 +303,13 @@ def _check_set_init(r, f, n):
                         ee = ee[1]
                     if ee[0] == 'bin' and ee[1].startswith('Sub') and is_r(ee[2]):
                         dec = True
+            # .. or the new value of the counter is computed on the full arm and reaches it through a copy / the
+            # payload of the accumulator of a fold
+            for l, ee in getattr(f, 'counter_defs', {}).get(R, []):
+                while ee[0] == 'cast' or (ee[0] == 'proj' and ee[2] == ('.0',)):
+                    ee = ee[4] if ee[0] == 'cast' else ee[1]
+                if ee[0] == 'bin' and ee[1].startswith('Sub') and is_r(ee[2]) and f.edge_dominates(full_e, Loc(*l) if not isinstance(l, Loc) else l):
+                    dec = True
             r.require(dec, name + '/decrement', 'the remaining count is not decreased by the element length on the full arm', f.where(fl))
 
 
@@ -642,14 +679,14 @@ def r4_guards(r, facts):
         ok = False
         # the amount skipped: the (multi-definition) counter local passed to skip(), whatever its name
         amount = eg.operand(t['args'][1])
-        nloc = {x[1] for x in subexprs(amount) if x[0] == 'local'}
+        nloc = {(x[0], x[1]) for x in subexprs(amount) if x[0] in ('local', 'arg')}
         for (b, tgt) in c10.controlling_switches(g, loc):
             e = eg.operand(g.term(b)['discr'])
             if e[0] == 'bin' and e[1] in ('Le', 'Gt', 'Lt', 'Ge'):
                 vals = {int(v): tg for v, tg in g.term(b)['targets']}
                 t_true, t_false = vals.get(1, g.term(b)['otherwise']), vals.get(0)
-                sa = any(x[0] == 'local' and x[1] in nloc for x in subexprs(e[2]))
-                sb = any(x[0] == 'local' and x[1] in nloc for x in subexprs(e[3]))
+                sa = any(x[0] in ('local', 'arg') and (x[0], x[1]) in nloc for x in subexprs(e[2]))
+                sb = any(x[0] in ('local', 'arg') and (x[0], x[1]) in nloc for x in subexprs(e[3]))
                 la = any(x[0] == 'call' and x[1].endswith('IoSlice::len') for x in subexprs(e[2]))
                 lb = any(x[0] == 'call' and x[1].endswith('IoSlice::len') for x in subexprs(e[3]))
                 if (e[1] == 'Le' and la and sb and tgt == t_false) or (e[1] == 'Gt' and la and sb and tgt == t_true) or \
@@ -698,3 +735,4 @@ def check(ctx):
     ctx.run('C14.R5', 'PROV: buffer impls never return pointers into the buffer value itself', addr.prov_rule)
     ctx.run('C14.R7', 'LimitedBuf: pointer/length/capacity methods (incl. the doc-hidden parts hook) apply the limit on every return path', r7_limited_every_path)
     ctx.run('C14.R6', 'BufMut wrappers forward buffer_init iff parts', c10.r6_forwarding)
+    ctx.run('C14.R8', 'buffer wrappers pass set_init/buffer_init on to the inner buffer with the same count on every path (=C10.R10)', c10.r10_wrapper_hooks)
